@@ -198,6 +198,16 @@ def handlers : List (String × Handler) := [
   ("getGroups", fun j => do
     let r := getGroups (← parseGroups (← j.getObjVal? "groups")) (← parseFilter (← j.getObjVal? "filter"))
     pure (exceptToJson (fun (l : List GroupInfo) => intsToJson (l.map (·.number))) r)),
+  ("sopParsed", fun j => do
+    -- parsed groups handed to the constructor of an instance of type "ct": [{"via": "2D"|"3D"|null, "commonZ": bool}]
+    let gs ← (← getArr j "groups").toList.mapM (fun g => do
+      let e : Enc Int := { coords := [], double := false, commonZ := if (← getBool g "commonZ") then some 0 else none,
+                           indexList := none, numAnn := 0 }
+      let g0 : Group Int := { gtype := "POINT", enc := e, cache := none }
+      match g.getObjVal? "via" with
+      | .ok (.str t) => pure (parseVia (ctOf t) g0)
+      | _ => pure (parse g0))
+    pure (okJson (Json.bool (sopAcceptsParsed (ctOf (← getStr j "ct")) gs)))),
   ("sopTypes", fun j => do
     let built ← (← getArr j "built").toList.mapM (fun b => match b with
       | .null => pure (none : Option Int)
